@@ -386,6 +386,7 @@ func VOfGo(x any) V {
 				out.O = append(out.O, KV{rv.Type().Field(i).Name, VOfGo(rv.Field(i).Interface())})
 			}
 		}
+		sort.Slice(out.O, func(i, j int) bool { return out.O[i].K < out.O[j].K }) // canonical form, as for maps
 		return out
 	}
 	return V{K: "x", Desc: "unknown"}
